@@ -135,6 +135,13 @@ def load_more(R):
         return VNone
     R.obj_method_hooks["update"] = sha_update
     R.obj_method_hooks["hexdigest"] = lambda ex, recv, args, kwargs: VStr(ufs["sha256hex"](ex.heap_arr("hashed", TObj())[recv.t]))
+    # the scalar case of the canonical JSON text under contract: the text of a scalar is json.dumps of THAT value (a function of the value as Python sees
+    # it -- type included: true / 1 / 1.0 render differently), computed afresh on every call; the list / dict cases stay summarised by nj
+    R.uf("json_scalar", [TObj()], TStr)
+    R.external("json.dumps", returns=TStr, ensures=["result == json_scalar(arg0)"])
+    R.contract(A + "_normalized_json@scalar", prop="C04", types={"obj": TObj()}, returns=TStr,
+               requires=["obj is None or isinstance(obj, bool) or isinstance(obj, str) or isinstance(obj, int) or isinstance(obj, float)"],
+               ensures=["result == json_scalar(obj)"])
     R.contract(A + "_normalized_json", assumed=True, types={"obj": TObj()}, returns=TStr, ensures=["result == nj(obj)"], raises={"ValueError": []},
                notes="assumed here: the normalised JSON text is a function of the encoded object (its independence of dict insertion order is NOT proved)")
     # the documented composition: hex(sha256(utf8(normalised-json(encode(effective kwargs)))))
